@@ -66,6 +66,10 @@ structure Obj where
   flag : Bool
   inuse : Bool
   pkgs : List String
+  /-- package revision: `spec.desiredState = Inactive` -/
+  inactive : Bool := false
+  /-- package revision: `spec.skipDependencyResolution = true` -/
+  skipDeps : Bool := false
   deriving DecidableEq, Repr
 
 structure St where
@@ -404,7 +408,11 @@ def revFinalize (k : Key) (pr : Obj) : P :=
       | _ => .ret .err
   else .ret .ok
 
-/-- package revision reconciler, deletion branch: cache.Delete, lock.RemoveSelf, RemoveFinalizer -/
+/-- package revision reconciler, deletion branch: cache.Delete, lock.RemoveSelf, RemoveFinalizer.
+Whether the revision is in the Lock is a matter of history, not of its current spec: the
+branch does NOT look at `pr.inactive` or `pr.skipDeps` (a revision marked Inactive whose
+deactivation never completed, or one whose `skipDependencyResolution` was switched on after
+its dependencies were resolved, is still in the Lock). -/
 def revRec (n : String) : P :=
   let k : Key := ⟨.rev, n⟩
   .call (.get k) fun
